@@ -249,7 +249,7 @@ def handleDispatch : List String → String
 
 /-- `rows` → one token per generated row: `<table>/<name>=<0|1>` -/
 def handleRows : List String → String
-  | [] => "ok " ++ " ".intercalate (builtinRows.map fun r => s!"{r.table}/{r.name}={Wire.encBool r.usable}")
+  | [] => "ok " ++ " ".intercalate ((builtinRows ++ extensionRows).map fun r => s!"{r.table}/{r.name}={Wire.encBool r.usable}")
   | _ => "bad-request"
 
 end Pedal.TifaWrapper
